@@ -60,7 +60,7 @@ func checkC02(c *Ctx) error {
 		for _, p := range ref.Needed {
 			idx := byProv[p]
 			if len(idx) == 0 {
-				ic.report(map[string]string{"kind": "needed-provider-never-invoked"}, map[string]string{}, "missing-"+p)
+				ic.report(map[string]string{"kind": "needed-provider-never-invoked", "_prov": p}, map[string]string{}, "missing-"+p)
 				continue
 			}
 			// invoked on the success path
